@@ -265,6 +265,77 @@ def run_life(ld, n, hist, res):
     res.case(('life', n, tuple(hist)), reopened > 0)
 
 
+def check_release_after_errors(ld, res):
+    """Examples behind the disk cache raise (FilterException under catch /
+    a catching prefetch, other exceptions caught by the caller): when the last
+    dataset is released the directory goes away at once if clear=True (and
+    stays otherwise) - judged with the cycle collector switched off, i.e. the
+    release itself has to do it, not a later garbage collection."""
+    FE = ld.core.FilterException
+
+    class Boom(Exception):
+        pass
+    scenarios = {
+        'catch-iterated': lambda d: list(d.catch()),
+        'try-index': lambda d: [_try(lambda: d[i]) for i in range(6)],
+        'try-key': lambda d: [_try(lambda: d[f'k{i}']) for i in range(6)],
+        'catching-prefetch': lambda d: list(d.prefetch(2, 2, 't', catch_filter_exception=True)),
+        'catching-prefetch1': lambda d: list(d.prefetch(1, 2, catch_filter_exception=True)),
+        'iteration-aborted-by-error': lambda d: _try(lambda: list(d)),
+        'items-under-catch': lambda d: list(d.catch().items()),
+        'no-error': lambda d: [d[3], d['k5']],
+    }
+    for exc, ids in ((FE, (1, 4)), (FE, (0,)), (Boom, (2,)), (FE, ())):
+        for sname, use in scenarios.items():
+            for clear in (True, False):
+                if exc is Boom and 'catch' in sname:
+                    continue
+                tmp = tempfile.mkdtemp(prefix='verif_c11e_')
+                cdir = os.path.join(tmp, 'cache')
+                case = {'release_after_errors': sname, 'raising_ids': list(ids),
+                        'exception': exc.__name__, 'clear': clear}
+                res.case(('release-err', sname, exc.__name__, ids, clear), True)
+
+                def m(x, exc=exc, ids=ids):
+                    if x in ids:
+                        raise exc(x)
+                    return payload(x)
+                gc.collect()
+                gc.disable()
+                try:
+                    ds = ld.new({f'k{i}': i for i in range(6)}).map(m).diskcache(
+                        cache_dir=cdir, clear=clear)
+                    try:
+                        use(ds)
+                    except BaseException as e:
+                        res.violation('access-raised', case, exc_sig(e),
+                                      sig={'op': 'release-after-errors'})
+                        continue
+                    del ds
+                    exists = os.path.exists(cdir)
+                finally:
+                    gc.enable()
+                    gc.collect()
+                    shutil.rmtree(tmp, ignore_errors=True)
+                res.count('releases_after_errors_checked')
+                if clear and exists:
+                    res.violation('directory-kept-despite-clear', case,
+                                  {'cycle_collector': 'off during the release'},
+                                  sig={'op': 'release', 'last': True, 'clear': True,
+                                       'after_errors': True})
+                elif not clear and not exists:
+                    res.violation('directory-removed-despite-clear-false', case, None,
+                                  sig={'op': 'release', 'last': True, 'clear': False,
+                                       'after_errors': True})
+
+
+def _try(f):
+    try:
+        return f()
+    except BaseException:
+        return None
+
+
 GETS = [('get', k, i, h) for k in ('idx', 'neg', 'key', 'iter', 'slice', 'items',
                                     'iter-consume', 'items-consume')
         for i in range(3) for h in (0, 1)]
@@ -491,6 +562,8 @@ def run_shard(spec, res):
                 run_life(ld, 3, h, res)
         for _ in range(spec['nlife'] // spec['mod']):
             run_life(ld, 3, random_history(rng), res)
+        if spec['rem'] == 0:
+            check_release_after_errors(ld, res)
         # a few hundred examples (beyond 2^8 stores through one object):
         # filled once, then every later pass - same object, a copy, a reopened
         # directory - is served from the store
